@@ -13,6 +13,11 @@
 //	cancel  context cancelled at every k-th visit and every k-th RemoveMessage
 //	start   Start with period 0; Start with a positive period cancelled before its first scan
 //	loop    the run loop performs a real scan after its one-minute delay, then is cancelled between scans or mid-scan
+//	fault, received, cancel0: see fault.go, received.go
+//	sizelimit  scans of a full memory store with maxkb while deliveries force evictions (sizelimit.go)
+//
+// Every stream draws its store configuration from pickConf (conf.go): file stores under hostile
+// directory names, memory stores with a size limit.
 package c12
 
 import (
@@ -44,7 +49,10 @@ func init() {
 			"executed at the k-th visited mailbox and, on file, between VisitMailboxes directory levels), race (1-4 client goroutines deliver young/old, " +
 			"remove, purge whole mailboxes while 1-3 scans run; verdict by logical clock, then one quiet scan and exact comparison), cancel (context " +
 			"cancelled at every k-th visit / k-th RemoveMessage, RetentionSleep 20ms), start (period 0; positive period cancelled before first scan), " +
-			"loop (real run-loop scan after the one-minute delay, cancelled between scans or while the scan is parked mid-way). Non-trivial: a scan that had >=1 expired and >=1 unexpired message " +
+			"loop (real run-loop scan after the one-minute delay, cancelled between scans or while the scan is parked mid-way), " +
+			"sizelimit (memory store with maxkb 4-32 KiB filled to 85-110%, 1-3 scans while 1-4 clients deliver messages forcing evictions, released at the scan's k-th RemoveMessage; " +
+			"young mail demanded only where the limit provably cannot evict it). Store configurations: half of the file stores under hostile directory names " +
+			"([ ] \\ * ? { } ~ % $ spaces unicode leading dot/dash, 200-byte component), a third of the memory stores with a roomy maxkb. Non-trivial: a scan that had >=1 expired and >=1 unexpired message " +
 			"(distinct by back end, period class, size buckets, stream-specific step).",
 		Assumptions: []string{
 			"message dates are >= 10 minutes away from the cut-off, and a case finishes within 10 minutes of reading the clock, so time.Now() inside DoScan cannot change the expected result",
@@ -63,6 +71,11 @@ func init() {
 				"cancel_points:visit":          20, "cancel_points:remove": 20, "cancel_stopped_early": 20,
 				"start_zero_returned": 2, "start_cancel_returned": 2,
 				"distinct_nontrivial": 60,
+				// store configurations (after C12-9, C12-10)
+				"file_stores_hostile_path": 100, "file_stores_glob_meta_path": 30, "seq_scans_hostile_path": 20,
+				"mem_stores_with_roomy_size_limit": 50,
+				"sizelimit_cases":                  20, "sizelimit_evictions": 100, "sizelimit_deliveries_overlapping_scan": 40,
+				"sizelimit_young_demanded": 100,
 			}
 			m["loop_scans_observed"] = 1
 			m["loop_mid_scan_cancels"] = 1
@@ -87,6 +100,7 @@ func run(c *fw.Ctx) {
 	c.Cases("fault", c.N(60, 900), func(i int, r *fw.Rand) { runFault(c, i, r) })
 	c.Cases("received", c.N(120, 2400), func(i int, r *fw.Rand) { runReceived(c, i, r) })
 	c.Cases("cancel0", c.N(24, 400), func(i int, r *fw.Rand) { runCancel0(c, i, r) })
+	c.Cases("sizelimit", c.N(64, 1200), func(i int, r *fw.Rand) { runSizeLimit(c, i, r) })
 	c.Cases("loop", c.N(2, 8), func(i int, r *fw.Rand) { runLoop(c, i, r) })
 }
 
@@ -133,7 +147,8 @@ func dropExpired(model map[string][]*pmsg) (removed, kept int) {
 func runSeq(c *fw.Ctx, idx int, r *fw.Rand) {
 	backend := backends[idx%2]
 	spec := genPop(r, 1, 40, 15, false)
-	st, _, err := newStore(c, backend)
+	sc := pickConf(c, "seq", idx, backend)
+	st, _, err := newStore(c, backend, sc)
 	if err != nil {
 		panic(err)
 	}
@@ -155,7 +170,7 @@ func runSeq(c *fw.Ctx, idx int, r *fw.Rand) {
 		sort.Strings(n)
 		return n
 	}
-	detail := map[string]any{"backend": backend, "period": spec.Period.String(), "population": spec}
+	detail := map[string]any{"backend": backend, "store_conf": sc, "period": spec.Period.String(), "population": spec}
 	pre, err := sut.Snapshot(st, allNames(), true)
 	if err != nil {
 		c.Inconclusive("store unreadable before the scan: " + err.Error())
@@ -184,6 +199,12 @@ func runSeq(c *fw.Ctx, idx int, r *fw.Rand) {
 			return
 		}
 		c.Count("seq_scans:"+backend, 1)
+		if sc.hostile() {
+			c.Count("seq_scans_hostile_path", 1)
+		}
+		if sc.MaxKB > 0 {
+			c.Count("seq_scans_roomy_size_limit", 1)
+		}
 		if serr != nil {
 			c.Violation("C12:scan-error:seq", fmt.Sprintf("DoScan on a quiet %s store returned %v", backend, serr), detail)
 			return
@@ -208,6 +229,11 @@ func runSeq(c *fw.Ctx, idx int, r *fw.Rand) {
 		if old > 0 && young > 0 {
 			c.NonTrivial(fmt.Sprintf("seq|%s|%s|boxes=%s|old=%s|young=%s|round=%d", backend, spec.PClass,
 				bucket(len(spec.Boxes)), bucket(old), bucket(young), round))
+			// The store configuration the exact comparison was made under (after C12-9 / C12-10).
+			c.NonTrivial("seq-conf|" + backend + "|" + sc.sig())
+			if sc.globMeta() {
+				c.Count("seq_exact_scans_glob_meta_path", 1)
+			}
 		}
 		if round == 0 {
 			c.Sample(map[string]any{"stream": "seq", "backend": backend, "period": spec.Period.String(),
@@ -305,7 +331,8 @@ func runInject(c *fw.Ctx, idx int, r *fw.Rand) {
 	backend := backends[idx%2]
 	useLevel := backend == "file" && (idx/2)%2 == 0
 	spec := genPop(r, 2, 16, 8, useLevel)
-	st, _, err := newStore(c, backend)
+	sc := pickConf(c, "inject", idx, backend)
+	st, _, err := newStore(c, backend, sc)
 	if err != nil {
 		panic(err)
 	}
@@ -362,7 +389,7 @@ func runInject(c *fw.Ctx, idx int, r *fw.Rand) {
 		}
 		plan = append(plan, tr)
 	}
-	detail := map[string]any{"backend": backend, "period": spec.Period.String(), "population": spec, "plan": plan}
+	detail := map[string]any{"backend": backend, "store_conf": sc, "period": spec.Period.String(), "population": spec, "plan": plan}
 
 	var opErrs []string
 	executed := 0
@@ -584,7 +611,8 @@ type clientOp struct {
 func runRace(c *fw.Ctx, idx int, r *fw.Rand) {
 	backend := backends[idx%2]
 	spec := genPop(r, 2, 14, 8, backend == "file" && r.Chance(1, 3))
-	st, _, err := newStore(c, backend)
+	sc := pickConf(c, "race", idx, backend)
+	st, _, err := newStore(c, backend, sc)
 	if err != nil {
 		panic(err)
 	}
@@ -641,7 +669,7 @@ func runRace(c *fw.Ctx, idx int, r *fw.Rand) {
 			plans[j] = append(plans[j], op)
 		}
 	}
-	detail := map[string]any{"backend": backend, "period": spec.Period.String(), "population": spec,
+	detail := map[string]any{"backend": backend, "store_conf": sc, "period": spec.Period.String(), "population": spec,
 		"clients": nclients, "scans": nscans, "retention_sleep": sleep.String()}
 
 	var clock atomic.Int64
@@ -873,8 +901,9 @@ func dropOrder(vs []verdict) []verdict {
 func runCancel(c *fw.Ctx, idx int, r *fw.Rand) {
 	backend := backends[idx%2]
 	spec := genPop(r, 2, 10, 5, false)
+	sc := pickConf(c, "cancel", idx, backend)
 	// Dry run to learn the number of visits and RemoveMessage calls of a complete scan.
-	V, R, _, ok := cancelRun(c, backend, &spec, "", 0, 0, 0)
+	V, R, _, ok := cancelRun(c, backend, sc, &spec, "", 0, 0, 0)
 	if !ok {
 		return
 	}
@@ -885,7 +914,7 @@ func runCancel(c *fw.Ctx, idx int, r *fw.Rand) {
 	step := func(kind string, k int) bool {
 		var last func()
 		for _, sleep := range []time.Duration{20 * time.Millisecond, 200 * time.Millisecond, 2 * time.Second} {
-			_, _, suspect, ok := cancelRun(c, backend, &spec, kind, k, V, sleep)
+			_, _, suspect, ok := cancelRun(c, backend, sc, &spec, kind, k, V, sleep)
 			if !ok {
 				return false
 			}
@@ -914,8 +943,8 @@ func runCancel(c *fw.Ctx, idx int, r *fw.Rand) {
 }
 
 // cancelRun stores the population afresh and scans it, cancelling at the k-th step of the kind.
-func cancelRun(c *fw.Ctx, backend string, spec *popSpec, kind string, k, fullVisits int, sleep time.Duration) (visits, removes int, suspect func(), ok bool) {
-	st, _, err := newStore(c, backend)
+func cancelRun(c *fw.Ctx, backend string, sc storeConf, spec *popSpec, kind string, k, fullVisits int, sleep time.Duration) (visits, removes int, suspect func(), ok bool) {
+	st, _, err := newStore(c, backend, sc)
 	if err != nil {
 		panic(err)
 	}
@@ -950,7 +979,7 @@ func cancelRun(c *fw.Ctx, backend string, spec *popSpec, kind string, k, fullVis
 	rs := storage.NewRetentionScanner(config.Storage{RetentionPeriod: spec.Period, RetentionSleep: sleep}, w)
 	var serr error
 	fin, dump := c.Within(90*time.Second, func() { serr = rs.DoScan(ctx) })
-	detail := map[string]any{"backend": backend, "period": spec.Period.String(), "population": spec, "cancel_at": kind, "k": k,
+	detail := map[string]any{"backend": backend, "store_conf": sc, "period": spec.Period.String(), "population": spec, "cancel_at": kind, "k": k,
 		"retention_sleep": sleep.String()}
 	if !fin {
 		c.Hang("doscan-return:cancel", fmt.Sprintf("DoScan did not return after the context was cancelled at %s %d", kind, k), dump)
@@ -1016,7 +1045,8 @@ func runStart(c *fw.Ctx, idx int, r *fw.Rand) {
 	backend := backends[idx%2]
 	variant := []string{"zero", "cancel"}[(idx/2)%2]
 	spec := genPop(r, 1, 8, 6, false)
-	st, _, err := newStore(c, backend)
+	sc := pickConf(c, "start", idx, backend)
+	st, _, err := newStore(c, backend, sc)
 	if err != nil {
 		panic(err)
 	}
@@ -1030,7 +1060,7 @@ func runStart(c *fw.Ctx, idx int, r *fw.Rand) {
 	for _, b := range spec.Boxes {
 		all = append(all, b.Name)
 	}
-	detail := map[string]any{"backend": backend, "variant": variant, "population": spec}
+	detail := map[string]any{"backend": backend, "store_conf": sc, "variant": variant, "population": spec}
 	ctx, cancel := context.WithCancel(context.Background())
 	defer cancel()
 	stay := func(*pmsg) int { return mustStay }
@@ -1134,7 +1164,8 @@ func runLoop(c *fw.Ctx, idx int, r *fw.Rand) {
 	midScan := idx%2 == 1
 	backend := backends[(idx/2)%2]
 	spec := genPop(r, 3, 12, 8, false)
-	st, _, err := newStore(c, backend)
+	sc := pickConf(c, "loop", idx, backend)
+	st, _, err := newStore(c, backend, sc)
 	if err != nil {
 		panic(err)
 	}
@@ -1157,7 +1188,7 @@ func runLoop(c *fw.Ctx, idx int, r *fw.Rand) {
 	for _, b := range spec.Boxes {
 		all = append(all, b.Name)
 	}
-	detail := map[string]any{"backend": backend, "population": spec}
+	detail := map[string]any{"backend": backend, "store_conf": sc, "population": spec}
 	ctx, cancel := context.WithCancel(context.Background())
 	defer cancel()
 	w := &wrapStore{Store: st}
